@@ -40,13 +40,29 @@ inductive CleanInst (strict : Bool) : InstIn → Prop
   | simple {as ts} : CleanL strict as ts → CleanInst strict (.simple as ts)
   | complex {ps} : CleanParts strict ps → CleanInst strict (.complex ps)
 
-/-- `inst` is conforming except that the value of attribute `a` (at any position, in any part) is `$` / empty -/
+/-- `inst` is conforming except that the value of attribute `a` (at any position, in any part) is `$` (d = true) or
+    absent (d = false) -/
 inductive OneMissing (strict : Bool) (a : AttrD) (d : Bool) : InstIn → Prop
   | simple {as₁ ts₁ as₂ ts₂} : CleanL strict as₁ ts₁ → CleanL strict as₂ ts₂ →
       OneMissing strict a d (.simple (as₁ ++ a :: as₂) (ts₁ ++ Tok.missing d :: ts₂))
   | complex {ps₁ ps₂ as₁ ts₁ as₂ ts₂} : CleanParts strict ps₁ → CleanParts strict ps₂ →
       CleanL strict as₁ ts₁ → CleanL strict as₂ ts₂ →
       OneMissing strict a d (.complex (ps₁ ++ (as₁ ++ a :: as₂, ts₁ ++ Tok.missing d :: ts₂) :: ps₂))
+
+/-- the same, restricted to the shapes on which the current code reports the attribute's error at all:
+    an internally mapped instance (own and inherited attributes alike), or the FIRST part of a complex instance
+    (the part that is the `STEPcomplex` object itself; `STEPcomplex::STEPread` drops what the other parts report —
+    KNOWN_FINDINGS `complex:nonhead-part-error-dropped`) -/
+inductive OneMissingSH (strict : Bool) (a : AttrD) (d : Bool) : InstIn → Prop
+  | simple {as₁ ts₁ as₂ ts₂} : CleanL strict as₁ ts₁ → CleanL strict as₂ ts₂ →
+      OneMissingSH strict a d (.simple (as₁ ++ a :: as₂) (ts₁ ++ Tok.missing d :: ts₂))
+  | head {ps₂ as₁ ts₁ as₂ ts₂} : CleanParts strict ps₂ → CleanL strict as₁ ts₁ → CleanL strict as₂ ts₂ →
+      OneMissingSH strict a d (.complex ((as₁ ++ a :: as₂, ts₁ ++ Tok.missing d :: ts₂) :: ps₂))
+
+/-- … and to internally mapped instances only -/
+inductive OneMissingSimple (strict : Bool) (a : AttrD) (d : Bool) : InstIn → Prop
+  | simple {as₁ ts₁ as₂ ts₂} : CleanL strict as₁ ts₁ → CleanL strict as₂ ts₂ →
+      OneMissingSimple strict a d (.simple (as₁ ++ a :: as₂) (ts₁ ++ Tok.missing d :: ts₂))
 
 /-- lenient mode substitutes for exactly these base types … -/
 def substitutable (k : Kind) : Bool := k = .integer || k = .real || k = .number || k = .string
@@ -67,7 +83,7 @@ theorem C15_strict_plumbing (s : Bool) :
     p21readStrictDefault = false ∧ p21readStrictWithDashS = true := by
   cases s <;> decide
 
-/-! ### attribute level: the decision table -/
+/-! ### attribute level: the decision table (`d = true`: the value is `$`; `d = false`: no value before the delimiter) -/
 
 theorem C15_attr_optional (strict d : Bool) (k : Kind) :
     attrRead strict ⟨k, true, false⟩ (.missing d) = (.null, .null) := by
@@ -77,13 +93,18 @@ theorem C15_attr_strict_required (d : Bool) (k : Kind) :
     attrRead true ⟨k, false, false⟩ (.missing d) = (.incomplete, .null) := by
   rfl
 
-theorem C15_attr_lenient_substitutes (d : Bool) (k : Kind) (h : substitutable k = true) :
-    attrRead false ⟨k, false, false⟩ (.missing d) = (.usermsg, .tok (substValue k)) := by
+theorem C15_attr_lenient_substitutes (k : Kind) (h : substitutable k = true) :
+    attrRead false ⟨k, false, false⟩ (.missing true) = (.usermsg, .tok (substValue k)) := by
   cases k <;> first | rfl | (simp [substitutable] at h)
 
-theorem C15_attr_lenient_other (d : Bool) (k : Kind) (h : substitutable k = false) :
-    attrRead false ⟨k, false, false⟩ (.missing d) = (.incomplete, .null) := by
+theorem C15_attr_lenient_other (k : Kind) (h : substitutable k = false) :
+    attrRead false ⟨k, false, false⟩ (.missing true) = (.incomplete, .null) := by
   cases k <;> first | rfl | (simp [substitutable] at h)
+
+/-- a required value that is not there at all is a malformed parameter list: incomplete in BOTH modes, every kind -/
+theorem C15_attr_absent_required (strict : Bool) (k : Kind) :
+    attrRead strict ⟨k, false, false⟩ (.missing false) = (.incomplete, .null) := by
+  cases strict <;> cases k <;> rfl
 
 /-! ### instance level -/
 
@@ -145,62 +166,18 @@ theorem instRead_val_at {strict s : Bool} (hs : attrStrict strict = s) {as₁ ts
   rw [List.zipWith_append hl]
   simp [List.length_zipWith, hl]
 
-/-! ### complex instances -/
+/-! ### complex instances: only the first part's severity survives `STEPcomplex::STEPread` -/
 
-theorem foldl_greater_clean (rs : List (Sev × List Val)) (h : ∀ r ∈ rs, r.1 = .null) (init : Sev) :
-    rs.foldl (fun acc r => Sev.greater acc r.1) init = init := by
-  induction rs generalizing init with
-  | nil => rfl
-  | cons r rs ih =>
-    simp only [List.foldl_cons]
-    rw [h r (by simp), greater_null_right]
-    exact ih (fun x hx => h x (by simp [hx])) init
+theorem complexRead_sev_head (strict : Bool) (p : List AttrD × List Tok) (ps : List (List AttrD × List Tok)) :
+    (complexRead strict (p :: ps)).1 = (instRead (partStrict strict) p.1 p.2).1 := by
+  have hm : complexMergesParts = false := rfl
+  simp [complexRead, hm]
 
 theorem complexRead_sev_clean {strict s : Bool} (hs : attrStrict (partStrict strict) = s) {ps}
     (h : CleanParts s ps) : (complexRead strict ps).1 = .null := by
-  unfold complexRead
-  have hall : ∀ r ∈ ps.map (fun p => instRead (partStrict strict) p.1 p.2), r.1 = .null := by
-    intro r hr
-    simp only [List.mem_map] at hr
-    obtain ⟨p, hp, rfl⟩ := hr
-    exact instRead_sev_clean hs (h p hp)
-  cases hps : ps.map (fun p => instRead (partStrict strict) p.1 p.2) with
+  cases ps with
   | nil => rfl
-  | cons x xs =>
-    rw [hps] at hall
-    simp only []
-    have : complexMergesParts = true := rfl
-    simp only [this, if_true]
-    rw [foldl_greater_clean xs (fun r hr => hall r (by simp [hr]))]
-    exact hall x (by simp)
-
-theorem complexRead_sev_at {strict s : Bool} (hs : attrStrict (partStrict strict) = s)
-    {ps₁ ps₂ as₁ ts₁ as₂ ts₂} (a : AttrD) (t : Tok)
-    (hp₁ : CleanParts s ps₁) (hp₂ : CleanParts s ps₂) (h₁ : CleanL s as₁ ts₁) (h₂ : CleanL s as₂ ts₂) :
-    (complexRead strict (ps₁ ++ (as₁ ++ a :: as₂, ts₁ ++ t :: ts₂) :: ps₂)).1 = (attrRead s a t).1 := by
-  unfold complexRead
-  have hm : complexMergesParts = true := rfl
-  have hc₁ : ∀ r ∈ ps₁.map (fun p => instRead (partStrict strict) p.1 p.2), r.1 = .null := by
-    intro r hr
-    simp only [List.mem_map] at hr
-    obtain ⟨p, hp, rfl⟩ := hr
-    exact instRead_sev_clean hs (hp₁ p hp)
-  have hc₂ : ∀ r ∈ ps₂.map (fun p => instRead (partStrict strict) p.1 p.2), r.1 = .null := by
-    intro r hr
-    simp only [List.mem_map] at hr
-    obtain ⟨p, hp, rfl⟩ := hr
-    exact instRead_sev_clean hs (hp₂ p hp)
-  have hx := instRead_sev_at hs a t h₁ h₂
-  simp only [List.map_append, List.map_cons]
-  cases hps : ps₁.map (fun p => instRead (partStrict strict) p.1 p.2) with
-  | nil =>
-    simp only [List.nil_append, hm, if_true]
-    rw [foldl_greater_clean _ hc₂]; exact hx
-  | cons x xs =>
-    rw [hps] at hc₁
-    simp only [List.cons_append, hm, if_true, List.foldl_append, List.foldl_cons]
-    rw [foldl_greater_clean xs (fun r hr => hc₁ r (by simp [hr])), hc₁ x (by simp), hx, greater_null_left,
-      foldl_greater_clean _ hc₂]
+  | cons p ps => rw [complexRead_sev_head]; exact instRead_sev_clean hs (h p (by simp))
 
 /-! ### file level -/
 
@@ -219,31 +196,34 @@ theorem foldl_afterInst_clean (rs : List InstResult) (h : ∀ r ∈ rs, r.sev = 
 theorem rd2_of_null (r : InstResult) (h : r.sev = .null) : rd2Invalid r = false ∧ rd2Valid r = true := by
   cases r with | mk s c => cases c <;> simp_all [rd2Invalid, rd2Valid, leftOver, reportsError] <;> decide
 
-/-- on this tree every instance shape hands its error to the file (so ReadData2 finds nothing left over) -/
-theorem rd2_any (r : InstResult) : rd2Invalid r = false ∧ rd2Valid r = true := by
-  cases r with | mk s c => cases c <;> cases s <;> decide
+theorem any_invalid_clean (rs : List InstResult) (h : ∀ x ∈ rs, x.sev = .null) : rs.any rd2Invalid = false := by
+  simp only [List.any_eq_false]; intro x hx; simp [(rd2_of_null x (h x hx)).1]
 
-/-- file severity when exactly one instance (anywhere) reads with severity `s` and all others read cleanly:
-    `AppendEntityErrorMsg`'s floor applied to `s` -/
+theorem all_valid_clean (rs : List InstResult) (h : ∀ x ∈ rs, x.sev = .null) : rs.all rd2Valid = true := by
+  simp only [List.all_eq_true]; intro x hx; exact (rd2_of_null x (h x hx)).2
+
+/-- what one instance with severity `s` does to the severity of an otherwise clean file:
+    internally mapped → `AppendEntityErrorMsg` (floor WARNING); complex → the error stays on the instance, `ReadData2`
+    counts it as invalid / not valid and the file gets SEVERITY_WARNING whatever `s` was -/
+def fileSevFor (r : InstResult) : Sev := fileSev [r]
+
+theorem fileSevFor_simple (s : Sev) : fileSevFor ⟨s, false⟩ = entityMerge .null s := by cases s <;> rfl
+theorem fileSevFor_complex (s : Sev) : fileSevFor ⟨s, true⟩ = if s = .null then .null else .warning := by
+  cases s <;> rfl
+
 theorem fileSev_one (rs₁ rs₂ : List InstResult) (r : InstResult)
     (h₁ : ∀ x ∈ rs₁, x.sev = .null) (h₂ : ∀ x ∈ rs₂, x.sev = .null) :
-    fileSev (rs₁ ++ r :: rs₂) = entityMerge .null r.sev := by
-  unfold fileSev
-  have hany : (rs₁ ++ r :: rs₂).any rd2Invalid = false := by
-    simp only [List.any_eq_false]; intro x _; simp [(rd2_any x).1]
-  have hall : (rs₁ ++ r :: rs₂).all rd2Valid = true := by
-    simp only [List.all_eq_true]; intro x _; exact (rd2_any x).2
-  simp only [hany, hall, if_true, Bool.false_eq_true, if_false]
+    fileSev (rs₁ ++ r :: rs₂) = fileSevFor r := by
+  unfold fileSevFor fileSev
+  simp only [List.any_append, List.any_cons, List.all_append, List.all_cons, any_invalid_clean rs₁ h₁,
+    any_invalid_clean rs₂ h₂, all_valid_clean rs₁ h₁, all_valid_clean rs₂ h₂, List.any_nil, List.all_nil,
+    Bool.false_or, Bool.or_false, Bool.true_and, Bool.and_true]
   rw [List.foldl_append, foldl_afterInst_clean rs₁ h₁, List.foldl_cons, foldl_afterInst_clean rs₂ h₂]
-  cases r with | mk s c => cases c <;> rfl
+  rfl
 
 theorem fileSev_clean (rs : List InstResult) (h : ∀ x ∈ rs, x.sev = .null) : fileSev rs = .null := by
   unfold fileSev
-  have hany : rs.any rd2Invalid = false := by
-    simp only [List.any_eq_false]; intro x _; simp [(rd2_any x).1]
-  have hall : rs.all rd2Valid = true := by
-    simp only [List.all_eq_true]; intro x _; exact (rd2_any x).2
-  simp only [hany, hall, if_true, Bool.false_eq_true, if_false]
+  simp only [any_invalid_clean rs h, all_valid_clean rs h, if_true, Bool.false_eq_true, if_false]
   exact foldl_afterInst_clean rs h _
 
 theorem readInst_clean {s : Bool} {i : InstIn} (h : CleanInst s i) : (readInst s i).sev = .null := by
@@ -251,101 +231,141 @@ theorem readInst_clean {s : Bool} {i : InstIn} (h : CleanInst s i) : (readInst s
   | simple hc => exact instRead_sev_clean (C15_strict_plumbing s).1 hc
   | complex hp => exact complexRead_sev_clean (C15_strict_plumbing s).2.1 hp
 
-/-- the severity of the affected instance is exactly what the attribute's pre-check decided -/
-theorem readInst_oneMissing {s : Bool} {a : AttrD} {d : Bool} {i : InstIn} (h : OneMissing s a d i) :
+theorem map_readInst_clean {s : Bool} (is : List InstIn) (h : ∀ x ∈ is, CleanInst s x) :
+    ∀ x ∈ is.map (readInst s), x.sev = .null := by
+  intro x hx; simp only [List.mem_map] at hx; obtain ⟨y, hy, rfl⟩ := hx; exact readInst_clean (h y hy)
+
+/-- internally mapped instance or first part of a complex one: the instance's severity is what the pre-check decided -/
+theorem readInst_SH {s : Bool} {a : AttrD} {d : Bool} {i : InstIn} (h : OneMissingSH s a d i) :
     (readInst s i).sev = (attrRead s a (.missing d)).1 := by
   cases h with
   | simple h₁ h₂ => exact instRead_sev_at (C15_strict_plumbing s).1 a _ h₁ h₂
-  | complex hp₁ hp₂ h₁ h₂ => exact complexRead_sev_at (C15_strict_plumbing s).2.1 a _ hp₁ hp₂ h₁ h₂
+  | head _ h₁ h₂ =>
+    simp only [readInst]
+    rw [complexRead_sev_head]
+    exact instRead_sev_at (C15_strict_plumbing s).2.1 a _ h₁ h₂
 
-theorem readFile_oneMissing {s : Bool} {a : AttrD} {d : Bool} {i : InstIn} (pre post : List InstIn)
-    (hpre : ∀ x ∈ pre, CleanInst s x) (hpost : ∀ x ∈ post, CleanInst s x) (h : OneMissing s a d i) :
-    readFile s (pre ++ i :: post) = entityMerge .null (attrRead s a (.missing d)).1 := by
+theorem readFile_one {s : Bool} (i : InstIn) (pre post : List InstIn)
+    (hpre : ∀ x ∈ pre, CleanInst s x) (hpost : ∀ x ∈ post, CleanInst s x) :
+    readFile s (pre ++ i :: post) = fileSevFor (readInst s i) := by
   unfold readFile
-  rw [List.map_append, List.map_cons, fileSev_one, readInst_oneMissing h]
-  · intro x hx; simp only [List.mem_map] at hx; obtain ⟨y, hy, rfl⟩ := hx; exact readInst_clean (hpre y hy)
-  · intro x hx; simp only [List.mem_map] at hx; obtain ⟨y, hy, rfl⟩ := hx; exact readInst_clean (hpost y hy)
+  rw [List.map_append, List.map_cons, fileSev_one _ _ _ (map_readInst_clean pre hpre) (map_readInst_clean post hpost)]
+
+theorem complex_of_SH_cases {s a d i} (h : OneMissingSH s a d i) :
+    readInst s i = ⟨(attrRead s a (.missing d)).1, match i with | .simple _ _ => false | .complex _ => true⟩ := by
+  have hs := readInst_SH h
+  cases h <;> (simp only [readInst] at hs ⊢; rw [hs])
 
 /-! ### the property -/
 
 /-- A conforming population reads cleanly in either mode: severity NULL, exit 0. -/
 theorem C15_conforming_clean (s : Bool) (is : List InstIn) (h : ∀ x ∈ is, CleanInst s x) :
     readFile s is = .null ∧ p21readExit (readFile s is) = 0 := by
-  have : readFile s is = .null := by
-    unfold readFile
-    apply fileSev_clean
-    intro x hx; simp only [List.mem_map] at hx; obtain ⟨y, hy, rfl⟩ := hx; exact readInst_clean (h y hy)
+  have : readFile s is = .null := fileSev_clean _ (map_readInst_clean is h)
   rw [this]; exact ⟨rfl, rfl⟩
 
-/-- OPTIONAL attribute unset (`$` or empty), any position of any instance shape, either mode:
-    the file reads with severity NULL, p21read exits 0, the instance is complete. -/
+/-- OPTIONAL attribute unset — `$` or no value at all —, ANY position of ANY instance shape (any part of a complex
+    instance included), either mode: the file reads with severity NULL, p21read exits 0, the instance is complete. -/
 theorem C15_optional_ok (s d : Bool) (k : Kind) (i : InstIn) (pre post : List InstIn)
     (hpre : ∀ x ∈ pre, CleanInst s x) (hpost : ∀ x ∈ post, CleanInst s x)
     (h : OneMissing s ⟨k, true, false⟩ d i) :
     readFile s (pre ++ i :: post) = .null ∧ accepted (readFile s (pre ++ i :: post)) = true ∧
     nodeState (readInst s i) = .complete := by
-  have hs := readInst_oneMissing h
-  rw [readFile_oneMissing pre post hpre hpost h, C15_attr_optional]
-  rw [C15_attr_optional] at hs
+  have hs : (readInst s i).sev = .null := by
+    cases h with
+    | simple h₁ h₂ =>
+      have := instRead_sev_at (C15_strict_plumbing s).1 ⟨k, true, false⟩ (Tok.missing d) h₁ h₂
+      rw [C15_attr_optional] at this; exact this
+    | @complex ps₁ ps₂ as₁ ts₁ as₂ ts₂ hp₁ _ h₁ h₂ =>
+      simp only [readInst]
+      cases ps₁ with
+      | nil =>
+        rw [List.nil_append, complexRead_sev_head]
+        have := instRead_sev_at (C15_strict_plumbing s).2.1 ⟨k, true, false⟩ (Tok.missing d) h₁ h₂
+        rw [C15_attr_optional] at this; exact this
+      | cons p ps =>
+        rw [List.cons_append, complexRead_sev_head]
+        exact instRead_sev_clean (C15_strict_plumbing s).2.1 (hp₁ p (by simp))
+  have hf : readFile s (pre ++ i :: post) = .null := by
+    rw [readFile_one i pre post hpre hpost]
+    cases hr : readInst s i with | mk sv c =>
+    rw [hr] at hs; simp only at hs; subst hs
+    cases c <;> rfl
+  rw [hf]
   refine ⟨rfl, rfl, ?_⟩
   unfold nodeState; rw [hs]; rfl
 
-/-- required attribute unset, STRICT mode, any kind: the instance is incomplete and the read fails (exit 1). -/
-theorem C15_strict_required_incomplete (d : Bool) (k : Kind) (i : InstIn) (pre post : List InstIn)
+/-- required attribute unset (`$` or absent), STRICT mode, any kind: the instance is incomplete and the read fails.
+    `_partial`: internally mapped instances (every own/inherited position) and the first part of a complex instance;
+    excluded: the other parts of a complex instance (see `C15_strict_required_complex_nonhead_witness`). -/
+theorem C15_strict_required_incomplete_partial (d : Bool) (k : Kind) (i : InstIn) (pre post : List InstIn)
     (hpre : ∀ x ∈ pre, CleanInst true x) (hpost : ∀ x ∈ post, CleanInst true x)
-    (h : OneMissing true ⟨k, false, false⟩ d i) :
-    readFile true (pre ++ i :: post) = .incomplete ∧ p21readExit (readFile true (pre ++ i :: post)) = 1 ∧
+    (h : OneMissingSH true ⟨k, false, false⟩ d i) :
+    p21readExit (readFile true (pre ++ i :: post)) = 1 ∧ accepted (readFile true (pre ++ i :: post)) = false ∧
     nodeState (readInst true i) = .incomplete := by
-  have hs := readInst_oneMissing h
-  rw [readFile_oneMissing pre post hpre hpost h, C15_attr_strict_required]
-  rw [C15_attr_strict_required] at hs
-  refine ⟨rfl, rfl, ?_⟩
-  unfold nodeState; rw [hs]; rfl
+  rw [readFile_one i pre post hpre hpost, complex_of_SH_cases h, C15_attr_strict_required]
+  cases h <;> exact ⟨rfl, rfl, rfl⟩
 
-/-- required INTEGER / REAL / NUMBER / STRING unset, LENIENT mode: user message, file accepted (exit 0),
-    instance complete. -/
-theorem C15_lenient_substitutes (d : Bool) (k : Kind) (hk : substitutable k = true) (i : InstIn)
+/-- … for internally mapped instances the file severity is exactly SEVERITY_INCOMPLETE -/
+theorem C15_strict_required_severity_simple (d : Bool) (k : Kind) (i : InstIn) (pre post : List InstIn)
+    (hpre : ∀ x ∈ pre, CleanInst true x) (hpost : ∀ x ∈ post, CleanInst true x)
+    (h : OneMissingSimple true ⟨k, false, false⟩ d i) : readFile true (pre ++ i :: post) = .incomplete := by
+  cases h with
+  | simple h₁ h₂ =>
+    rw [readFile_one _ pre post hpre hpost, complex_of_SH_cases (.simple h₁ h₂), C15_attr_strict_required]; rfl
+
+/-- required INTEGER / REAL / NUMBER / STRING given as `$`, LENIENT mode: user message, file accepted (exit 0), instance
+    complete.  `_partial`: internally mapped instances (every own/inherited position); excluded: attributes inside
+    complex instances (`C15_lenient_substitutes_complex_head_witness`, `…_nonhead_witness`). -/
+theorem C15_lenient_substitutes_partial (k : Kind) (hk : substitutable k = true) (i : InstIn)
     (pre post : List InstIn)
     (hpre : ∀ x ∈ pre, CleanInst false x) (hpost : ∀ x ∈ post, CleanInst false x)
-    (h : OneMissing false ⟨k, false, false⟩ d i) :
+    (h : OneMissingSimple false ⟨k, false, false⟩ true i) :
     readFile false (pre ++ i :: post) = .usermsg ∧ accepted (readFile false (pre ++ i :: post)) = true ∧
     nodeState (readInst false i) = .complete := by
-  have hs := readInst_oneMissing h
-  rw [readFile_oneMissing pre post hpre hpost h, C15_attr_lenient_substitutes d k hk]
-  rw [C15_attr_lenient_substitutes d k hk] at hs
-  refine ⟨rfl, rfl, ?_⟩
-  unfold nodeState; rw [hs]; rfl
+  cases h with
+  | simple h₁ h₂ =>
+    rw [readFile_one _ pre post hpre hpost, complex_of_SH_cases (.simple h₁ h₂), C15_attr_lenient_substitutes k hk]
+    exact ⟨rfl, rfl, rfl⟩
 
 /-- … and the value stored at that position (the one written back) is 0 / 0.0 / 0 / '' — internally mapped instance -/
-theorem C15_lenient_value_simple (d : Bool) (k : Kind) (hk : substitutable k = true)
+theorem C15_lenient_value_simple (k : Kind) (hk : substitutable k = true)
     {as₁ ts₁} (as₂ ts₂) (h₁ : CleanL false as₁ ts₁) :
-    ((readVals false (.simple (as₁ ++ ⟨k, false, false⟩ :: as₂) (ts₁ ++ Tok.missing d :: ts₂)))[0]?.bind
+    ((readVals false (.simple (as₁ ++ ⟨k, false, false⟩ :: as₂) (ts₁ ++ Tok.missing true :: ts₂)))[0]?.bind
       (·[as₁.length]?)) = some (.tok (substValue k)) := by
   simp only [readVals, List.getElem?_cons_zero, Option.bind_some]
-  rw [instRead_val_at (C15_strict_plumbing false).1 as₂ ts₂ _ _ h₁, C15_attr_lenient_substitutes d k hk]
+  rw [instRead_val_at (C15_strict_plumbing false).1 as₂ ts₂ _ _ h₁, C15_attr_lenient_substitutes k hk]
 
-/-- … the same inside a part of a complex instance -/
-theorem C15_lenient_value_complex (d : Bool) (k : Kind) (hk : substitutable k = true)
+/-- … the substitution itself also happens inside every part of a complex instance (the flags reach the parts) -/
+theorem C15_lenient_value_complex (k : Kind) (hk : substitutable k = true)
     (ps₁ ps₂ : List (List AttrD × List Tok)) {as₁ ts₁} (as₂ ts₂) (h₁ : CleanL false as₁ ts₁) :
-    ((readVals false (.complex (ps₁ ++ (as₁ ++ ⟨k, false, false⟩ :: as₂, ts₁ ++ Tok.missing d :: ts₂) :: ps₂)))[ps₁.length]?.bind
+    ((readVals false (.complex (ps₁ ++ (as₁ ++ ⟨k, false, false⟩ :: as₂, ts₁ ++ Tok.missing true :: ts₂) :: ps₂)))[ps₁.length]?.bind
       (·[as₁.length]?)) = some (.tok (substValue k)) := by
   simp only [readVals, complexRead, List.map_append, List.map_cons, List.map_map]
   rw [List.getElem?_append_right (by simp)]
   simp only [List.length_map, Nat.sub_self, List.getElem?_cons_zero, Option.bind_some]
-  rw [instRead_val_at (C15_strict_plumbing false).2.1 as₂ ts₂ _ _ h₁, C15_attr_lenient_substitutes d k hk]
+  rw [instRead_val_at (C15_strict_plumbing false).2.1 as₂ ts₂ _ _ h₁, C15_attr_lenient_substitutes k hk]
 
-/-- required attribute of any other kind unset, LENIENT mode: incomplete, read fails — as in strict mode. -/
-theorem C15_lenient_other_incomplete (d : Bool) (k : Kind) (hk : substitutable k = false) (i : InstIn)
+/-- required attribute of any other kind given as `$`, LENIENT mode: incomplete, read fails — as in strict mode.
+    `_partial`: same shapes as `C15_strict_required_incomplete_partial`. -/
+theorem C15_lenient_other_incomplete_partial (k : Kind) (hk : substitutable k = false) (i : InstIn)
     (pre post : List InstIn)
     (hpre : ∀ x ∈ pre, CleanInst false x) (hpost : ∀ x ∈ post, CleanInst false x)
-    (h : OneMissing false ⟨k, false, false⟩ d i) :
-    readFile false (pre ++ i :: post) = .incomplete ∧ p21readExit (readFile false (pre ++ i :: post)) = 1 ∧
+    (h : OneMissingSH false ⟨k, false, false⟩ true i) :
+    p21readExit (readFile false (pre ++ i :: post)) = 1 ∧ accepted (readFile false (pre ++ i :: post)) = false ∧
     nodeState (readInst false i) = .incomplete := by
-  have hs := readInst_oneMissing h
-  rw [readFile_oneMissing pre post hpre hpost h, C15_attr_lenient_other d k hk]
-  rw [C15_attr_lenient_other d k hk] at hs
-  refine ⟨rfl, rfl, ?_⟩
-  unfold nodeState; rw [hs]; rfl
+  rw [readFile_one i pre post hpre hpost, complex_of_SH_cases h, C15_attr_lenient_other k hk]
+  cases h <;> exact ⟨rfl, rfl, rfl⟩
+
+/-- required attribute with NO value at all (`,` or `)` where a value is expected), either mode, every kind — also the
+    four that lenient mode would substitute for a `$`: incomplete, read fails.  `_partial`: shapes as above. -/
+theorem C15_absent_required_incomplete_partial (s : Bool) (k : Kind) (i : InstIn) (pre post : List InstIn)
+    (hpre : ∀ x ∈ pre, CleanInst s x) (hpost : ∀ x ∈ post, CleanInst s x)
+    (h : OneMissingSH s ⟨k, false, false⟩ false i) :
+    p21readExit (readFile s (pre ++ i :: post)) = 1 ∧ accepted (readFile s (pre ++ i :: post)) = false ∧
+    nodeState (readInst s i) = .incomplete := by
+  rw [readFile_one i pre post hpre hpost, complex_of_SH_cases h, C15_attr_absent_required]
+  cases h <;> exact ⟨rfl, rfl, rfl⟩
 
 /-- the table is total: the two lenient rows partition the kinds, exactly as the property lists them -/
 theorem C15_table_total (k : Kind) :
@@ -353,16 +373,50 @@ theorem C15_table_total (k : Kind) :
     (substitutable k = true ∨ substitutable k = false) := by
   cases k <;> simp [substitutable]
 
+/-! ### where the current code violates the property (recorded in KNOWN_FINDINGS.txt, replayed by checks/c15.py) -/
+
+/-- general form of `complex:nonhead-part-error-dropped`: whatever stands in the parts after the first one, the
+    complex instance reads with the severity of its first part alone -/
+theorem C15_complex_nonhead_ignored (s : Bool) (p : List AttrD × List Tok) (ps : List (List AttrD × List Tok))
+    (hp : CleanL s p.1 p.2) : (readInst s (.complex (p :: ps))).sev = .null := by
+  simp only [readInst]
+  rw [complexRead_sev_head]; exact instRead_sev_clean (C15_strict_plumbing s).2.1 hp
+
+/-- `#1=(A(5)B($));` with `B.x : ENUMERATION` required, STRICT mode: severity NULL, accepted, complete — the property
+    demands incomplete / exit 1 -/
+theorem C15_strict_required_complex_nonhead_witness :
+    let i := InstIn.complex [([⟨.integer, false, false⟩], [Tok.lit (.tok "5") .null]), ([⟨.enum, false, false⟩], [Tok.missing true])]
+    readFile true [i] = .null ∧ accepted (readFile true [i]) = true ∧ nodeState (readInst true i) = .complete := by
+  decide
+
+/-- the same file in lenient mode, and with a substitutable kind: accepted WITHOUT a user message -/
+theorem C15_lenient_complex_nonhead_witness :
+    let i := InstIn.complex [([⟨.integer, false, false⟩], [Tok.lit (.tok "5") .null]), ([⟨.string, false, false⟩], [Tok.missing true])]
+    readFile false [i] = .null := by
+  decide
+
+/-- `complex:usermsg-escalated`: `#1=(A($)B(.X.));` with `A.n : INTEGER` required, LENIENT mode: the part substitutes 0 with a
+    user message, but the file ends with SEVERITY_WARNING and p21read exits 1 — the property demands accepted -/
+theorem C15_lenient_substitutes_complex_head_witness :
+    let i := InstIn.complex [([⟨.integer, false, false⟩], [Tok.missing true]), ([⟨.enum, false, false⟩], [Tok.lit (.tok ".X.") .null])]
+    (readInst false i).sev = .usermsg ∧ readFile false [i] = .warning ∧ p21readExit (readFile false [i]) = 1 := by
+  decide
+
 /-! ### hypotheses are satisfiable -/
 
-example : OneMissing false ⟨.real, false, false⟩ true
+example : OneMissingSimple false ⟨.real, false, false⟩ true
     (.simple ([⟨.integer, false, false⟩] ++ ⟨.real, false, false⟩ :: [⟨.entity, true, false⟩])
              ([Tok.lit (.tok "5") .null] ++ Tok.missing true :: [Tok.missing false])) :=
   .simple (.cons rfl .nil) (.cons rfl .nil)
 
-example : OneMissing true ⟨.enum, false, false⟩ false
+example : OneMissingSH true ⟨.enum, false, false⟩ false
+    (.complex (([] ++ ⟨.enum, false, false⟩ :: [], [] ++ Tok.missing false :: []) ::
+               [([⟨.integer, false, false⟩], [Tok.lit (.tok "5") .null])])) :=
+  .head (by intro p hp; simp at hp; subst hp; exact .cons rfl .nil) .nil .nil
+
+example : OneMissing false ⟨.logical, true, false⟩ true
     (.complex ([([⟨.integer, false, false⟩], [Tok.lit (.tok "5") .null])] ++
-               ([] ++ ⟨.enum, false, false⟩ :: [], [] ++ Tok.missing false :: []) :: [])) :=
+               ([] ++ ⟨.logical, true, false⟩ :: [], [] ++ Tok.missing true :: []) :: [])) :=
   .complex (by intro p hp; simp at hp; subst hp; exact .cons rfl .nil) (by intro p hp; simp at hp) .nil .nil
 
 end StepModel.AttrNull
